@@ -306,9 +306,12 @@ class ExpressionScalar(Expression):
             self._original_expression = ex._original_expression
             self._sympified_expression = ex._sympified_expression            
             self._variables = ex._variables
-        elif isinstance(ex, (int, float)):
+        elif isinstance(ex, (int, float, numpy.integer)):
             if isinstance(ex, numpy.float64):
                 ex = float(ex)
+            elif isinstance(ex, numpy.integer):
+                # keep a builtin int: the original expression is what gets serialized
+                ex = int(ex)
             self._original_expression = ex
             self._sympified_expression = sympify(ex)
             self._variables = ()
